@@ -15,7 +15,7 @@ ASSUMPTIONS = [
     "the graceful wind-down of each codec (HTTP/2 GOAWAY, HTTP/1.1 flush and close, QUIC close) is the codec's graceful_shutdown: its call after the notification is a regenerated structural fact, its effect is covered for HTTP/1.1 by C08's end-of-stream cases",
 ]
 RULE = ("interleavings of up to 14 operations over up to 5 participants: register, start waiting, submit (once or twice), wind down (before or after observing), "
-        "coordinator starts the completion wait, observe; late registration after completion has returned; participants that never wait; real tunnel / ping / speedtest sessions as participants (completion waits for a live session, a submission winds it down); the known hazard "
+        "coordinator starts the completion wait, observe; late registration after completion has returned; participants that never wait; real tunnel / ping / speedtest sessions as participants (completion waits for a live session, a submission winds it down); the real endpoint with live sessions of every transport, among them an HTTP/1.1 tunnel whose upload is stalled; the known hazard "
         "(registration while completion is awaited under the lock, one worker thread); non-trivial = every case; distinct = distinct script")
 
 
@@ -87,9 +87,10 @@ def gen_cases(rng, ctx):
     # the real endpoint (Core::listen on a loopback port, TLS and QUIC) with live sessions of every transport: submission,
     # goodbye seen by each client (HTTP/1.1 close, HTTP/2 GOAWAY, QUIC close), completion after the last one is done.
     # The QUIC session races the listener that feeds it: repeated, because the order is the scheduler's choice
-    for mask in ([1, 2, 8, 16, 31, 27] + [4] * (10 if thorough else 5) + [5, 6, 12, 20, 32, 33, 48]):
+    # 64 = an HTTP/1.1 tunnel whose upload is stalled (the destination accepts and never reads, the client has filled the path)
+    for mask in ([1, 2, 8, 16, 31, 27] + [4] * (10 if thorough else 5) + [5, 6, 12, 20, 32, 33, 48, 64, 65, 91]):
         l = line("c19_front", [[mask]])
-        lm = line("c19_front", [[mask & 31]])
+        lm = line("c19_front", [[mask & 95]])
         cases.append(Case(l, lm, kind="endpoint:sessions-%d" % mask, nontrivial=mask != 0, meta={"front": True, "mask": mask}))
     # the real binary (endpoint/src/main.rs) as a process: live sessions, SIGINT, what each client sees, the exit
     for mask in ([31, 2, 4, 1, 8, 16, 6] + ([31, 27, 21, 0] if thorough else [])):
@@ -139,7 +140,8 @@ def known_finding(case, kind, msg, known):
 
 
 NAMES = {1: "HTTP/1.1 tunnel in use", 2: "HTTP/2 connection with an open tunnel stream", 4: "HTTP/3 (QUIC) connection with an open tunnel stream",
-         8: "idle TLS connection", 16: "idle HTTP/2 connection"}
+         8: "idle TLS connection", 16: "idle HTTP/2 connection",
+         64: "HTTP/1.1 tunnel whose upload is stalled (the destination accepts and never reads, the client has uploaded until nothing more was taken)"}
 
 
 def judge(case, impl, model, spec, ctx):
@@ -172,7 +174,11 @@ def judge(case, impl, model, spec, ctx):
         if premature:
             return [("violation", "real endpoint with its listener%s running and nothing submitted: waiting for completion returned within 300 ms "
                                   "(a participant that registered before the wait is not counted)" % ("" if not (mask & 31) else " and sessions {%s}" % ", ".join(v for k, v in NAMES.items() if mask & k)))]
-        mask = mask & 31
+        mask = mask & 95
+        if (mask & 64) and not (est & 64) and est == mask & 31:
+            # the upload never stalled within 256 MiB: this machine's buffers are not what the scenario assumes
+            ctx.setdefault("skipped_env", []).append(case.kind)
+            return []
         if est != mask:
             return [("disagree", "%s: only sessions %d of %d could be established" % (what, est, mask))]
         if not listener:
